@@ -199,6 +199,14 @@ func (rn *Runner) Session(variant string, sess []Msg) bool {
 		if !rn.deliver(peer, variant, sess, i) {
 			return false
 		}
+		// let the gossip goroutines look at the peer state the mutant shaped before later messages change it
+		// (they have no recover: a panic there ends the process)
+		if sess[i].Subject && i+1 < len(sess) && reactorName(rn.e, sess[i].Ch) == "consensus" && peer.BaseService.IsRunning() {
+			if w := rn.e.WaitGossip(peer, 2); w != "" {
+				return rn.finish(peer, variant, sess, last) // reported there
+			}
+			rn.run.Count("gossip_waits", 1)
+		}
 	}
 	return rn.finish(peer, variant, sess, last)
 }
